@@ -23,6 +23,7 @@ type Clause struct {
 	File  string
 	Line  int
 	Label string
+	Assumed bool // `assumes`: a postcondition callers may use that is not checked on the body (listed as an assumption)
 }
 
 type FuncContract struct {
@@ -105,7 +106,7 @@ type ContractFile struct {
 
 var clauseKeywords = map[string]bool{
 	"func": true, "spec": true, "ghost": true, "lemma": true, "axiom": true,
-	"requires": true, "ensures": true, "loop": true, "callback": true, "nopanic": true,
+	"requires": true, "ensures": true, "assumes": true, "loop": true, "callback": true, "nopanic": true,
 	"assigns": true, "effects": true, "calls": true, "pure": true,
 	"trusted": true, "inline": true, "reach": true, "sends": true, "opaque": true, "sticky": true, "crash_invariant": true, "results": true,
 }
@@ -224,9 +225,18 @@ func parseContractFile(path, pkgPath string) (*ContractFile, error) {
 				cf.Axioms = append(cf.Axioms, c)
 			}
 			cur = nil
-		case "requires", "ensures", "crash_invariant", "sends":
+		case "requires", "ensures", "crash_invariant", "sends", "assumes":
 			if err := needCur(); err != nil {
 				return nil, err
+			}
+			if w == "assumes" {
+				c, err := mk("ensures", rest)
+				if err != nil {
+					return nil, err
+				}
+				c.Assumed = true
+				cur.Ensures = append(cur.Ensures, c)
+				continue
 			}
 			c, err := mk(w, rest)
 			if err != nil {
@@ -666,6 +676,18 @@ func emitItems(items []sItem) (string, error) {
 	q := -1
 	for i, it := range items {
 		if it.kind == 2 && (it.text == "forall" || it.text == "exists") {
+			// a quantifier has a "::" later at this level; otherwise the word is
+			// an ordinary identifier (a local variable named exists)
+			hasCC := false
+			for _, jt := range items[i+1:] {
+				if jt.kind == 2 && jt.text == "::" {
+					hasCC = true
+				}
+			}
+			if !hasCC {
+				items[i].kind = 0
+				continue
+			}
 			q = i
 			break
 		}
